@@ -97,6 +97,9 @@ public:
     bool tryAddNamedAssertion(PTRef, std::string const & name);
     // Try add a unique name for a term already included in the assertions
     bool tryAddTermNameFor(PTRef, std::string const & name);
+    // Support for rolling back the names registered by a command that is rejected afterwards
+    std::size_t getTermNamesCount() const { return termNames.size(); }
+    void forgetTermNamesSince(std::size_t count) { termNames.shrinkTo(count); }
 
     void initialize();
 
